@@ -73,12 +73,34 @@ def h_union(domname, dim):
     return str(Union(*bs[::-1]))
 
 
+def _analytic_lowering(cls, name, params, patch, spname, names):
+    """lower  int (x*y*u*v + grad u . grad v)  on an analytical mapping of the given class / name / PARAMETERS"""
+    import sympde.topology.analytical_mapping as am
+    from sympde.topology import Square, ScalarFunctionSpace, elements_of
+    from sympde.topology.mapping import LogicalExpr
+    from sympde.calculus import grad, dot
+    from sympde.expr import integral, TerminalExpr
+    M = getattr(am, cls)(name, dim=2, **params)
+    D = M(Square(patch))
+    V = ScalarFunctionSpace(spname, D, kind='h1')
+    u, v = elements_of(V, names=names)
+    x, y = D.coordinates
+    e = LogicalExpr(integral(D, x * y * u * v + dot(grad(u), grad(v))), D)
+    return M, D, V, u, v, TerminalExpr(e, D.logical_domain)
+
+
+def h_amapping(cls, name, params, patch, spname, names):
+    """an analytical mapping with the same class and NAME as the target's but other parameter values: a different
+    input (the parameters are part of a mapping's identity), so it must not influence the target"""
+    return str(_analytic_lowering(cls, name, params, patch, spname, names)[-1])
+
+
 def h_target(name, k, dim):
     """the target's own code run earlier with another dimension: the sharpest name collision"""
     return TARGETS[name](k, dim)
 
 
-HOPS = {"target": h_target, "domain": h_domain, "space": h_space, "form": h_form, "mapping": h_mapping, "join": h_join,
+HOPS = {"amapping": h_amapping, "target": h_target, "domain": h_domain, "space": h_space, "form": h_form, "mapping": h_mapping, "join": h_join,
         "union": h_union, "clear": clear}
 
 
@@ -278,7 +300,13 @@ def t_shared_bc(k):
     return [str(before), str(after)], [], []
 
 
-TARGETS = {"iface_mapped": t_iface_mapped, "shared_bc": t_shared_bc, "bilinear": t_bilinear, "vector3d": t_vector3d, "logical": t_logical, "join": t_join, "union": t_union,
+def t_analytic(k):
+    """lowering on PolarMapping('M', rmin=1, rmax=3): histories use the same class and name with other parameters"""
+    M, D, V, u, v, res = _analytic_lowering("PolarMapping", "M", {"c1": 0, "c2": 0, "rmin": 1, "rmax": 3}, "A", "V", "u,v")
+    return [str(res), str(M.jacobian_expr)], [], []
+
+
+TARGETS = {"analytic": t_analytic, "iface_mapped": t_iface_mapped, "shared_bc": t_shared_bc, "bilinear": t_bilinear, "vector3d": t_vector3d, "logical": t_logical, "join": t_join, "union": t_union,
            "equation": t_equation, "norm": t_norm, "polar": t_polar}
 
 
